@@ -33,13 +33,19 @@ BitsOfBytes(bs) == {x \in 0..(8 * Len(bs) - 1) : ((bs[(x \div 8) + 1] \div Pow2(
 MaskLen(n) == (n + 7) \div 8
 
 (* the logged projection of object o must be the one bitset b determines *)
+(* Padding bits (positions >= n of the last byte) may be present in what a bdn mask was given; they are  *)
+(* not signers: the signer bits, the count and the first Cardinality(b) positional answers are those of   *)
+(* b.  Beyond that IndexOfNthEnabled may answer -1 or name a padding bit that is really set.              *)
+RealBits(bs, n) == BitsOfBytes(bs) \cap (0..(n - 1))
 ProjOK(n, b, st) ==
     /\ Len(st.mask) = MaskLen(n)
-    /\ BitsOfBytes(st.mask) = b
+    /\ RealBits(st.mask, n) = b
     /\ st.count = Cardinality(b)
     /\ ("nth" \in DOMAIN st) =>
            /\ Len(st.nth) = n + 1
-           /\ \A k \in 0..n : st.nth[k + 1] = (IF IndexOfNthN(n, b, k) = n THEN -1 ELSE IndexOfNthN(n, b, k))
+           /\ \A k \in 0..n :
+                 IF k < Cardinality(b) THEN st.nth[k + 1] = IndexOfNthN(n, b, k)
+                 ELSE st.nth[k + 1] = -1 \/ (st.nth[k + 1] >= n /\ st.nth[k + 1] \in BitsOfBytes(st.mask))
 
 TReset ==
     /\ IsEvent("reset")
@@ -61,7 +67,7 @@ OpOf(e) ==
     CASE e.ev = "SetBit" ->
             [o |-> "SetBit", i |-> IF e.args.i < 0 THEN tn + 1 ELSE IF e.args.i >= tn THEN tn ELSE e.args.i, en |-> e.args.en]
       [] OTHER ->
-            [o |-> e.ev, bs |-> BitsOfBytes(e.args.mask), lenok |-> Len(e.args.mask) = MaskLen(tn)]
+            [o |-> e.ev, bs |-> RealBits(e.args.mask, tn), lenok |-> Len(e.args.mask) = MaskLen(tn)]
 
 TApply(name) ==
     /\ IsEvent(name)
@@ -89,6 +95,7 @@ TAggKey ==
     /\ Ev.ret = "ok"
     /\ ProjOK(tn, tb[Ev.obj].bits, Ev.state)
     /\ Ev.state.key = Ev.args.canon
+    /\ Ev.state.sig = Ev.args.canonsig               \* honest signatures of the enabled signers aggregate as over the clean mask
     /\ UNCHANGED <<tn, tkind, tb>>
 
 TInit == l = 1 /\ tn = 1 /\ tkind = "bdn" /\ tb = [o \in TObjs |-> Dead]
